@@ -836,7 +836,7 @@ var c25HashStub bool
 
 // (crypto.Hash).New is replaced by the ideal hash only while c25HashStub is set.
 //
-//verif:stub (crypto.Hash).New
+// (engine stub for (crypto.Hash).New: registered through zz_verif_stubs.go)
 func c25StubHashNew(h crypto.Hash) hash.Hash {
 	if !verifrt.Symbolic() || !c25HashStub {
 		return h.New()
